@@ -219,8 +219,8 @@ def extract_writer(src, rep):
 
     def cond_hook(it, test, env):
         t = norm(test)
-        if t.endswith('in self._multivalued_fields'):
-            return True
+        if isinstance(test, ast.Compare) and len(test.ops) == 1 and isinstance(test.ops[0], (ast.In, ast.NotIn)) and norm(test.comparators[0]) == 'self._multivalued_fields':
+            return isinstance(test.ops[0], ast.In)       # the writer is analysed for a structured field
         if t.startswith('hasattr(self[') and "'keys'" in t:
             return it.decide(('bool', 'single-line'), 'the field holds a single record')
         if isinstance(test, ast.Call) and norm(test.func) == 'hasattr' and len(test.args) == 2 and norm(test.args[1]) == "'keys'":
@@ -256,6 +256,33 @@ def extract_writer(src, rep):
             return Opaque('lower-cased key')
         if norm(call.func) == 'len':
             return Opaque('len')
+        # a private helper of the class (self._x(...) / cls._x(...)): interpreted in place
+        if isinstance(call.func, ast.Attribute) and isinstance(call.func.value, ast.Name) and call.func.value.id in ('self', 'cls', '_multivalued') \
+                and call.func.attr.startswith('_') and not call.func.attr.startswith('__') and not call.keywords:
+            h_ = src.mod(MOD).method('_multivalued', call.func.attr)
+            if h_ is not None and isinstance(h_.node, ast.FunctionDef) and call.func.attr != f.node.name:
+                decos = [norm(d) for d in h_.node.decorator_list]
+                params = [a_.arg for a_ in h_.node.args.args]
+                args = [it.ev(a_, env) for a_ in call.args]
+                if 'staticmethod' not in decos and params:
+                    args = [env.get('self')] + args
+                defaults = h_.node.args.defaults
+                while len(args) < len(params) and len(params) - len(args) <= len(defaults):
+                    args.append(it.ev(defaults[len(defaults) - (len(params) - len(args))], {}))
+                return it.call(strlang.Closure(h_.node, {}), args, call)
+        # the table of registered widths read without try/except: getattr(self, <name>, {}) / <table>.get(field, {}) / <widths>.get(sub-field)
+        if norm(call.func) == 'getattr' and len(call.args) == 3 and norm(call.args[0]) == 'self' and isinstance(call.args[1], ast.Constant):
+            return Opaque('widths:table')
+        if isinstance(call.func, ast.Attribute) and call.func.attr == 'get' and call.args and not call.keywords:
+            try:
+                base = it.ev(call.func.value, env)
+            except AnalysisError:
+                return NotImplemented
+            if isinstance(base, Opaque) and base.why == 'widths:table' and len(call.args) == 2:
+                return Opaque('widths:field')
+            if isinstance(base, Opaque) and base.why == 'widths:field' and len(call.args) == 1:
+                # a width is registered for this sub-field, or not
+                return Opaque('width') if it.decide(('present', 'width'), 'a width is registered for the sub-field') else strlang.NONE
         return NotImplemented
 
     def run(dec):
@@ -667,7 +694,16 @@ def r4_size_column(rep, src):
                                  'the column width / text of a structured field is then taken from an earlier dump although records were added or changed since')
     # right alignment in the writer
     fw = src.func(MOD + ':_multivalued.get_as_string')
-    pads = [s for s in ast.walk(fw.node) if isinstance(s, ast.Assign) and isinstance(s.value, ast.BinOp) and isinstance(s.value.op, ast.Add)
+    # the writer and the private helpers of its class that it calls
+    bodies = [fw.node]
+    for c_ in ast.walk(fw.node):
+        if isinstance(c_, ast.Call) and isinstance(c_.func, ast.Attribute) and isinstance(c_.func.value, ast.Name) and c_.func.value.id in ('self', 'cls', '_multivalued') \
+                and c_.func.attr.startswith('_'):
+            h_ = m.method('_multivalued', c_.func.attr)
+            if h_ is not None and h_.node not in bodies:
+                bodies.append(h_.node)
+    wnodes = [n_ for b_ in bodies for n_ in ast.walk(b_)]
+    pads = [s for s in wnodes if isinstance(s, ast.Assign) and isinstance(s.value, ast.BinOp) and isinstance(s.value.op, ast.Add)
             and isinstance(s.value.left, ast.BinOp) and isinstance(s.value.left.op, ast.Mult)]
     okp = False
     for s in pads:
@@ -676,7 +712,7 @@ def r4_size_column(rep, src):
         if isinstance(sp, ast.Constant) and sp.value == ' ' and isinstance(cnt, ast.BinOp) and isinstance(cnt.op, ast.Sub) \
                 and norm(cnt.right) == 'len(%s)' % norm(s.value.right):
             okp = True
-    for c in ast.walk(fw.node):
+    for c in wnodes:
         # raw.rjust(width)
         if isinstance(c, ast.Call) and isinstance(c.func, ast.Attribute) and c.func.attr == 'rjust' and len(c.args) == 1:
             okp = True
